@@ -299,7 +299,7 @@ def print_assumptions(module, names, timeout=600):
         if "Closed under the global context" in txt:
             res[n] = []
         else:
-            axs = re.findall(r"^([A-Za-z_][\w'.]*)\s*:", txt, re.M)
+            axs = [a for a in re.findall(r"^([A-Za-z_][\w'.]*)\s*:", txt, re.M) if a != "Axioms"]
             res[n] = axs if axs else ["<unparsed>"]
     return res, out
 
